@@ -149,9 +149,20 @@ func engineConcSearch(ctx *Ctx) {
 			}
 			ctx.R.Path("rounds-with-shared-boost-map", 1)
 		}
+		if rd%3 == 2 {
+			// one platform list - spelt as people spell it, with room to spare behind it - shared by every goroutine: read-only, too
+			pl := make([]string, 0, 8)
+			names := []string{"Linux", " macos ", "Darwin", "OSX", "WINDOWS", "linux ", "Unix", "PowerShell", "macos"}
+			for i, n := 0, 1+r.Intn(3); i < n; i++ {
+				pl = append(pl, names[r.Intn(len(names))])
+			}
+			baseO.Platforms, baseO.AllPlatforms = pl, false
+			ctx.R.Path("rounds-with-shared-platform-list", 1)
+		}
 		for i := 0; i < nQ; i++ {
 			mix = append(mix, qo{vlib.GenQuery(r, words, 1+r.Intn(3), []int{0, 0, 2}[r.Intn(3)]), baseO})
 		}
+		platsBefore := fmt.Sprintf("%q", baseO.Platforms[:cap(baseO.Platforms)])
 		boostsBefore := fmt.Sprint(baseO.ContextBoosts)
 		mix = append(mix, qo{"list directory", baseO}, qo{"copy files", baseO})
 		if len(words) > 1 { // one-word requests and longer requests that share the word
@@ -316,6 +327,11 @@ func engineConcSearch(ctx *Ctx) {
 		if after := fmt.Sprint(baseO.ContextBoosts); after != boostsBefore {
 			ctx.R.Violate(vlib.Violation{Property: "C11", Clause: "not-as-if-alone", Path: "SearchOptions.ContextBoosts",
 				Detail:  fmt.Sprintf("the caller's boost map was modified by the searches: %s -> %s (later searches no longer see the options they were given)", boostsBefore, after),
+				Witness: cs})
+		}
+		if after := fmt.Sprintf("%q", baseO.Platforms[:cap(baseO.Platforms)]); after != platsBefore {
+			ctx.R.Violate(vlib.Violation{Property: "C11", Clause: "not-as-if-alone", Path: "SearchOptions.Platforms",
+				Detail:  fmt.Sprintf("the caller's platform list was modified by the searches: %s -> %s", platsBefore, after),
 				Witness: cs})
 		}
 		// conservation of monitor increments
